@@ -82,7 +82,7 @@ class GuardRun:
     def op_sexp(self, c):
         if c.op == "from_str":
             return "(from_str %s)" % (c.oracle if c.oracle else "none")
-        if c.op in ("de", "de_json", "de_ron", "de_mp"):
+        if c.op in ("de", "de_json", "de_ron", "de_mp", "de_self", "de_seq1"):
             return "(de %s)" % (c.oracle if c.oracle and c.oracle != "-" else "none")
         if c.op in ("default", "arb_range", "msgs"):
             return "(%s)" % c.op
